@@ -143,7 +143,7 @@ def parts(tier):
     n, k = (5, 3) if quick else (7, 8)
     return [
         EnumPart(name="skeletons", check=check_skeleton,
-                 items=lambda: [{"levels": s, "k": k} for s in P.skeletons(n)], seconds=60 if quick else 900),
+                 items=lambda: [{"levels": s, "k": k} for s in P.skeletons(n)], seconds=60 if quick else 600),
         HypPart(name="page", check=check_page, strategy=_page_case,
                 examples=25 if quick else 800, seconds=25 if quick else 400),
     ]
